@@ -175,6 +175,19 @@ impl Repo {
                 self.git(&["add", "tracked.txt"], None).unwrap();
                 std::fs::write(self.dir.join("tracked.txt"), "tracked\n").unwrap();
             }
+            // only the executable bit of a tracked file differs: git reports it as modified
+            "mode-changed" => {
+                use std::os::unix::fs::PermissionsExt;
+                std::fs::set_permissions(self.dir.join("tracked.txt"), std::fs::Permissions::from_mode(0o755)).unwrap();
+            }
+            // a file ignored through .git/info/exclude rather than .gitignore: still ignored
+            "excluded-only" => {
+                let common = self.git(&["rev-parse", "--git-common-dir"], None).unwrap();
+                let info = self.dir.join(common).join("info");
+                std::fs::create_dir_all(&info).unwrap();
+                std::fs::write(info.join("exclude"), "excluded.txt\n").unwrap();
+                std::fs::write(self.dir.join("excluded.txt"), "e\n").unwrap();
+            }
             // the file's stat data no longer match the index but its content is unchanged: nothing is modified
             "touched" => {
                 let f = std::fs::OpenOptions::new().write(true).open(self.dir.join("tracked.txt")).unwrap();
@@ -308,10 +321,10 @@ fn flow_out(repo: &Repo, fmt: &str) -> Option<String> {
     }
 }
 
-const KINDS: &[&str] = &["clean", "modified", "staged", "untracked", "ignored", "deleted", "staged-deletion", "untracked-nested", "empty-dir", "staged-then-reverted", "touched", "rewritten-same"];
+const KINDS: &[&str] = &["clean", "modified", "staged", "untracked", "ignored", "deleted", "staged-deletion", "untracked-nested", "empty-dir", "staged-then-reverted", "touched", "rewritten-same", "mode-changed", "excluded-only"];
 
 fn expected_dirty(kind: &str) -> bool {
-    matches!(kind, "modified" | "staged" | "untracked" | "deleted" | "staged-deletion" | "untracked-nested" | "staged-then-reverted")
+    matches!(kind, "modified" | "staged" | "untracked" | "deleted" | "staged-deletion" | "untracked-nested" | "staged-then-reverted" | "mode-changed")
 }
 
 /// judge one observation against the expected answers of the specification (Gen direction)
@@ -411,7 +424,7 @@ pub fn replay(args: &[String]) {
         // the work-tree kinds under one format each
         // (the first four kinds for every repository, one of the others in turn)
         let extra = 5 + text.len() % (KINDS.len() - 5);
-        for (i, kind) in KINDS.iter().enumerate().skip(1).filter(|(i, k)| *i < 5 || *i == extra || **k == "touched") {
+        for (i, kind) in KINDS.iter().enumerate().skip(1).filter(|(i, k)| *i < 5 || *i == extra || **k == "touched" || **k == "mode-changed") {
             let fmt = ["auto", "semver", "pep440"][(text.len() + i) % 3];
             repo.touch(kind);
             obs.push((fmt, kind.to_string(), observe(&repo, fmt)));
@@ -530,7 +543,7 @@ pub fn record(args: &[String]) {
                     }
                 }
                 _ => {
-                    let kind = KINDS[[0, 0, 0, 0, 1, 2, 3, 4, 5, 6, 7, 8, 9, 10, 11][rng.gen_range(0..15)]];
+                    let kind = KINDS[[0, 0, 0, 0, 1, 2, 3, 4, 5, 6, 7, 8, 9, 10, 11, 12, 13][rng.gen_range(0..17)]];
                     repo.touch(kind);
                     let o = observe(&repo, fmt);
                     repo.restore();
